@@ -884,7 +884,52 @@ func (c *c14Model) genMigrate(r *Run) (Step, bool) {
 	case 4:
 		a["sigto"] = "adv/1"
 	}
-	return blk(Tx{K: "g_migrate", S: src, A: a}), true
+	step := blk(Tx{K: "g_migrate", S: src, A: a})
+	if rng.IntN(3) == 0 {
+		// land the migration in exactly the block whose time reaches the completion time of one of the
+		// source's unbonding / redelegation entries (mature by the clock, still queued)
+		if dt, ok := c.dtToMaturity(r, src, rng.IntN(2) == 0); ok {
+			step.DtMs = dt
+			r.Probe("c14-migration-in-maturity-block")
+		}
+	}
+	return step, true
+}
+
+// dtToMaturity: milliseconds from the last block time to the earliest future completion time of an
+// unbonding (or redelegation) entry of the account.
+func (c *c14Model) dtToMaturity(r *Run, name string, plusOne bool) (int64, bool) {
+	w := r.W
+	addr := sdk.AccAddress(gsign(w, name).Addr)
+	var best time.Time
+	consider := func(t time.Time) {
+		if t.After(w.Now) && (best.IsZero() || t.Before(best)) {
+			best = t
+		}
+	}
+	ubds, _ := w.App.StakingKeeper.GetAllUnbondingDelegations(w.Ctx(), addr)
+	for _, u := range ubds {
+		for _, e := range u.Entries {
+			consider(e.CompletionTime)
+		}
+	}
+	reds, _ := w.App.StakingKeeper.GetRedelegations(w.Ctx(), addr, 100)
+	for _, rd := range reds {
+		for _, e := range rd.Entries {
+			consider(e.CompletionTime)
+		}
+	}
+	if best.IsZero() {
+		return 0, false
+	}
+	dt := best.Sub(w.Now).Milliseconds()
+	if best.Sub(w.Now) > time.Duration(dt)*time.Millisecond {
+		dt++ // completion time not on a millisecond boundary: first block at or after it
+	}
+	if plusOne {
+		dt += int64(1 + r.Rng.IntN(3))
+	}
+	return dt, dt > 0
 }
 
 func sortedInts(m map[int]bool) []int {
